@@ -208,6 +208,8 @@ def parseLog (s : String) : Option (List Ev) :=
 
 def funnelMonLine (line : String) : String :=
   if line.startsWith "skip" then "ok" else
+  -- the harness marks two Source.Ack calls of one source being in flight at the same time
+  if (line.splitOn "X[overlap]").length > 1 then "fail: C04 overlapping Source.Ack calls (acks to one source must be serialised)" else
   match line.splitOn " ## " with
   | [cs, lg] =>
     match parseCase cs, parseLog lg with
